@@ -33,6 +33,9 @@ import (
 	"golang.org/x/crypto/openpgp"
 	"golang.org/x/crypto/openpgp/armor"
 	"golang.org/x/crypto/ssh"
+	"gopkg.in/yaml.v2"
+
+	"github.com/Cloud-Foundations/golib/pkg/log/testlogger"
 )
 
 type c19Key struct {
@@ -234,10 +237,26 @@ func TestVerif_C19S(t *testing.T) {
 	// the property predicate on the observation: a key of an offered type was refused (ssh or x509)
 	sb.WriteString("Definition c19s_violating := Eval vm_compute in mismatches (fun c : N * bool * bool => c19s_bad c && negb (snd (fst c) && snd c)) sweep.\nPrint c19s_violating.\n")
 	sb.WriteString("Definition c19s_ncases := Eval vm_compute in length sweep.\nPrint c19s_ncases.\n")
+	// (c) the server's key material as a dimension: every CA key file format x every key type the client offers
+	first := map[int]c19Key{}
+	for _, k := range keys {
+		if _, ok := first[k.typ]; !ok && (k.shape == "plain" || k.typ == 0 || k.typ == 3) {
+			first[k.typ] = k
+		}
+	}
+	kcases, kidx := c19sCAMatrix(t, res, []c19Key{first[0], first[1], first[2], first[3]})
+	sb.WriteString("From KM Require Import Model.ServerKeys.\n")
+	sb.WriteString("Definition kcases : list kcase := [\n" + strings.Join(kcases, ";\n") + "\n].\n")
+	sb.WriteString("Definition c19k_bad (c : kcase) : bool := negb (kcheck ssh_key_type_alternatives (N.of_nat client_rsa_key_size) c).\n")
+	sb.WriteString("Definition c19k_mismatches := Eval vm_compute in mismatches c19k_bad kcases.\nPrint c19k_mismatches.\n")
+	// the property predicate on the observation: the daemon runs and an offered key type got no certificate although the CA for it is configured
+	sb.WriteString("Definition c19k_violating := Eval vm_compute in mismatches (fun c => c19k_bad c && kviolates c) kcases.\nPrint c19k_violating.\n")
+	sb.WriteString("Definition c19k_ncases := Eval vm_compute in length kcases.\nPrint c19k_ncases.\n")
 	if err := ioutil.WriteFile(filepath.Join(verifOut(), "CasesC19S.v"), []byte(sb.String()), 0644); err != nil {
 		t.Fatal(err)
 	}
 	ioutil.WriteFile(filepath.Join(verifOut(), "CasesC19S.idx"), []byte(strings.Join(idx, "\n")+"\n"), 0644)
+	ioutil.WriteFile(filepath.Join(verifOut(), "CasesC19K.idx"), []byte(strings.Join(kidx, "\n")+"\n"), 0644)
 
 	// (a) serve until the client harness is done
 	deadline := time.Now().Add(12 * time.Minute)
@@ -255,4 +274,331 @@ func TestVerif_C19S(t *testing.T) {
 	}
 	res.Extra["client_harness_finished"] = served
 	res.write(t, "TestVerif_C19S")
+}
+
+// ---------------------------------------------------------------- CA key material
+
+// a private key as the operator may have stored it: format 0 PKCS#8 ("PRIVATE KEY": openssl genpkey), 1 the
+// traditional form of the algorithm ("RSA PRIVATE KEY" / "EC PRIVATE KEY": openssl genrsa / ecparam -genkey),
+// 2 OpenSSH ("OPENSSH PRIVATE KEY": ssh-keygen)
+func c19sKeyFile(key crypto.Signer, format int) ([]byte, error) {
+	switch format {
+	case 0:
+		der, err := x509.MarshalPKCS8PrivateKey(key)
+		if err != nil {
+			return nil, err
+		}
+		return pem.EncodeToMemory(&pem.Block{Type: "PRIVATE KEY", Bytes: der}), nil
+	case 1:
+		switch k := key.(type) {
+		case *rsa.PrivateKey:
+			return pem.EncodeToMemory(&pem.Block{Type: "RSA PRIVATE KEY", Bytes: x509.MarshalPKCS1PrivateKey(k)}), nil
+		case *ecdsa.PrivateKey:
+			der, err := x509.MarshalECPrivateKey(k)
+			if err != nil {
+				return nil, err
+			}
+			return pem.EncodeToMemory(&pem.Block{Type: "EC PRIVATE KEY", Bytes: der}), nil
+		}
+		return nil, fmt.Errorf("no traditional form for %T", key)
+	default:
+		blk, err := ssh.MarshalPrivateKey(crypto.PrivateKey(key), "")
+		if err != nil {
+			return nil, err
+		}
+		return pem.EncodeToMemory(blk), nil
+	}
+}
+
+// PGP-armored symmetric encryption under the unsealing passphrase, as keymasterd's generated CA file
+func c19sSeal(plain []byte) ([]byte, error) {
+	armoredBuf := new(bytes.Buffer)
+	armoredWriter, err := armor.Encode(armoredBuf, "PGP MESSAGE", nil)
+	if err != nil {
+		return nil, err
+	}
+	w, err := openpgp.SymmetricallyEncrypt(armoredWriter, []byte(verifPassphrase), nil, nil)
+	if err != nil {
+		return nil, err
+	}
+	w.Write(plain)
+	w.Close()
+	armoredWriter.Close()
+	return armoredBuf.Bytes(), nil
+}
+
+// a daemon state through the production configuration path (config file -> loadVerifyConfigFile ->
+// tryLoadAndVerifySigners -> loadSignersFromPemData) with the given CA key files; plain PEM files: the daemon starts
+// unsealed; sealed: both files PGP-armored, unsealed through the secret injector.  An error = the daemon does not start.
+func c19sStateWithCA(t *testing.T, mainFile, edFile []byte, sealed bool) (*verifEnv, error) {
+	material := verifMaterial(t)
+	dir, err := ioutil.TempDir("", "verif_km_c19k")
+	if err != nil {
+		t.Fatal(err)
+	}
+	t.Cleanup(func() { os.RemoveAll(dir) })
+	copyTree(t, material, dir)
+	configFilename := filepath.Join(dir, "config.yml")
+	raw, err := ioutil.ReadFile(configFilename)
+	if err != nil {
+		t.Fatal(err)
+	}
+	raw = []byte(strings.ReplaceAll(string(raw), material, dir))
+	var cfg AppConfigFile
+	if err := yaml.Unmarshal(raw, &cfg); err != nil {
+		t.Fatal(err)
+	}
+	cfg.Base.HostIdentity = "keymaster.example"
+	cfg.Base.HttpAddress = ":443"
+	cfg.Base.AdminAddress = ":6920"
+	cfg.Base.AllowedAuthBackendsForWebUI = []string{"password"}
+	cfg.Base.AllowedAuthBackendsForCerts = []string{"password"}
+	if f, err := os.OpenFile(cfg.Base.HtpasswdFilename, os.O_APPEND|os.O_WRONLY, 0644); err == nil {
+		f.WriteString("\n" + verifHtpasswdLines())
+		f.Close()
+	}
+	if sealed {
+		if mainFile, err = c19sSeal(mainFile); err != nil {
+			t.Fatal(err)
+		}
+		if edFile != nil {
+			if edFile, err = c19sSeal(edFile); err != nil {
+				t.Fatal(err)
+			}
+		}
+	}
+	if err := ioutil.WriteFile(cfg.Base.SSHCAFilename, mainFile, 0600); err != nil {
+		t.Fatal(err)
+	}
+	if edFile != nil {
+		cfg.Base.Ed25519CAFilename = filepath.Join(dir, "ed25519_ca.key")
+		if err := ioutil.WriteFile(cfg.Base.Ed25519CAFilename, edFile, 0600); err != nil {
+			t.Fatal(err)
+		}
+	}
+	out, err := yaml.Marshal(&cfg)
+	if err != nil {
+		t.Fatal(err)
+	}
+	if err := ioutil.WriteFile(configFilename, out, 0640); err != nil {
+		t.Fatal(err)
+	}
+	state, err := loadVerifyConfigFile(configFilename, testlogger.New(t))
+	if err != nil {
+		return nil, err
+	}
+	t.Cleanup(func() {
+		if state.dbDone != nil {
+			close(state.dbDone)
+		}
+	})
+	env := &verifEnv{t: t, dir: dir, configFile: configFilename, passphrase: verifPassphrase, state: state}
+	env.adminClient = verifReadCert(t, filepath.Join(dir, "etc/keymaster/adminClient.pem"))
+	env.adminCA = verifReadCert(t, filepath.Join(dir, "etc/keymaster/adminCA.pem"))
+	if sealed {
+		if code := env.inject(env.passphrase, true); code != 200 {
+			return nil, fmt.Errorf("unsealing refused: %d", code)
+		}
+	}
+	select {
+	case <-state.SignerIsReady:
+	case <-time.After(5 * time.Second):
+		return nil, fmt.Errorf("signer not ready")
+	}
+	if state.Signer == nil {
+		return nil, fmt.Errorf("no signer loaded")
+	}
+	env.finishStartup()
+	return env, nil
+}
+
+// every CA key configuration the daemon can be given -- main CA {RSA, P-256, P-384, P-521} x {PKCS#8, PKCS#1/SEC1,
+// OpenSSH}, Ed25519 CA {none, PKCS#8, OpenSSH} -- x every key type the client offers, serialised as the client
+// does, through certgen type=ssh and type=x509; plus sealed variants and key files the loader must refuse.
+// Coq: Model/ServerKeys.v load_signers / ssh_answer_of / x509_certified over the regenerated pattern.
+func c19sCAMatrix(t *testing.T, res *verifResult, offered []c19Key) (cases, idx []string) {
+	algNames := []string{"rsa", "p256", "p384", "p521", "ed25519"}
+	fmtNames := []string{"pkcs8", "traditional", "openssh"}
+	typeNames := []string{"rsa", "p256", "p384", "ed25519"}
+	caKeys := make([]crypto.Signer, 5)
+	var err error
+	if caKeys[0], err = rsa.GenerateKey(rand.Reader, 2048); err != nil {
+		t.Fatal(err)
+	}
+	for i, curve := range []elliptic.Curve{elliptic.P256(), elliptic.P384(), elliptic.P521()} {
+		if caKeys[1+i], err = ecdsa.GenerateKey(curve, rand.Reader); err != nil {
+			t.Fatal(err)
+		}
+	}
+	_, edPriv, err := ed25519.GenerateKey(rand.Reader)
+	if err != nil {
+		t.Fatal(err)
+	}
+	caKeys[4] = edPriv
+	type caFile struct{ alg, format int }
+	type config struct {
+		main   caFile
+		ed     *caFile
+		sealed bool
+	}
+	var configs []config
+	for alg := 0; alg < 4; alg++ {
+		for format := 0; format < 3; format++ {
+			configs = append(configs, config{main: caFile{alg, format}})
+			for _, edFormat := range []int{0, 2} {
+				configs = append(configs, config{main: caFile{alg, format}, ed: &caFile{4, edFormat}})
+			}
+		}
+	}
+	// sealed files with each form inside
+	configs = append(configs, config{main: caFile{0, 1}, ed: &caFile{4, 2}, sealed: true}, config{main: caFile{2, 2}, ed: &caFile{4, 0}, sealed: true},
+		config{main: caFile{1, 0}, sealed: true})
+	// key files of the wrong kind: an Ed25519 key as the main CA, an RSA / ECDSA key as the Ed25519 CA
+	configs = append(configs, config{main: caFile{4, 0}}, config{main: caFile{4, 2}, ed: &caFile{4, 0}},
+		config{main: caFile{0, 0}, ed: &caFile{0, 0}}, config{main: caFile{1, 1}, ed: &caFile{1, 2}}, config{main: caFile{0, 2}, ed: &caFile{3, 1}})
+	name := func(f caFile) string { return algNames[f.alg] + "-" + fmtNames[f.format] }
+	// refusals per (client key type, path): reported per CA file when they depend on it, once when they do not
+	type refusal struct {
+		ca  string
+		hit verifHit
+	}
+	refusals := map[string][]refusal{}
+	type loadFailure struct {
+		main, ed string
+		hit      verifHit
+	}
+	var notLoaded []loadFailure
+	asked := map[string]int{}
+	for _, cf := range configs {
+		mainFile, err := c19sKeyFile(caKeys[cf.main.alg], cf.main.format)
+		if err != nil {
+			t.Fatal(err)
+		}
+		var edFile []byte
+		edCoq, edName := "None", "none"
+		if cf.ed != nil {
+			if edFile, err = c19sKeyFile(caKeys[cf.ed.alg], cf.ed.format); err != nil {
+				t.Fatal(err)
+			}
+			edCoq = fmt.Sprintf("Some (%d%%N, %d%%N)", cf.ed.alg, cf.ed.format)
+			edName = name(*cf.ed)
+		}
+		desc := fmt.Sprintf("main CA %s, Ed25519 CA %s, sealed=%v", name(cf.main), edName, cf.sealed)
+		env, loadErr := c19sStateWithCA(t, mainFile, edFile, cf.sealed)
+		wellFormed := cf.main.alg < 4 && (cf.ed == nil || cf.ed.alg == 4)
+		cs := map[string]interface{}{"main_ca": name(cf.main), "ed25519_ca": edName, "sealed": cf.sealed}
+		res.bump(fmt.Sprintf("ca-config:%s+%s:loaded=%v", name(cf.main), edName, loadErr == nil))
+		if loadErr != nil {
+			if wellFormed && !cf.sealed {
+				notLoaded = append(notLoaded, loadFailure{name(cf.main), edName, verifHit{Oracle: "the daemon runs with every CA key file its loader takes, so that the offered key types are certified", Kind: "input",
+					What: fmt.Sprintf("the daemon does not start with %s: %s", desc, strings.TrimSpace(loadErr.Error())), Case: cs}})
+			} else if wellFormed {
+				res.hit(verifHit{Key: "C19:offered-refused:all:sealed-ca-" + name(cf.main) + "+" + edName, Oracle: "the daemon runs with every CA key file its loader takes, so that the offered key types are certified", Kind: "input",
+					What: fmt.Sprintf("the daemon does not start with %s: %s", desc, strings.TrimSpace(loadErr.Error())), Case: cs})
+			}
+			res.eval("ca-config|"+desc+"|refused", true)
+			cases = append(cases, fmt.Sprintf(" (%d%%N, %d%%N, %s, false, [])", cf.main.alg, cf.main.format, edCoq))
+			idx = append(idx, fmt.Sprintf("%d\t%s -> the daemon does not start: %s", len(idx), desc, strings.TrimSpace(strings.ReplaceAll(loadErr.Error(), "\n", " "))))
+			continue
+		}
+		cookie := env.cookie("alice", AuthTypePassword)
+		var verdicts, vdesc []string
+		for _, k := range offered {
+			sshPub, err := ssh.NewPublicKey(k.pub)
+			if err != nil {
+				t.Fatal(err)
+			}
+			line := string(ssh.MarshalAuthorizedKey(sshPub))
+			der, err := x509.MarshalPKIXPublicKey(k.pub)
+			if err != nil {
+				t.Fatal(err)
+			}
+			pemKey := string(pem.EncodeToMemory(&pem.Block{Type: "PUBLIC KEY", Bytes: der}))
+			// type=ssh
+			req := verifCertgenRequest("POST", "alice", "ssh", line, nil, nil)
+			req.AddCookie(cookie)
+			rr, _ := env.serve(req)
+			answer := 2
+			switch {
+			case rr.Code == 200 && verifParseCertBody(rr.Body.Bytes()) != nil:
+				answer = 0
+			case rr.Code == 422 && k.typ == 3:
+				answer = 1
+			}
+			signing := cf.main
+			if k.typ == 3 && cf.ed != nil {
+				signing = *cf.ed
+			}
+			kcs := map[string]interface{}{"main_ca": name(cf.main), "ed25519_ca": edName, "sealed": cf.sealed, "client_key_type": typeNames[k.typ], "key": strings.TrimSpace(line), "status": rr.Code}
+			if k.typ != 3 || cf.ed != nil {
+				asked[typeNames[k.typ]+":ssh"]++
+			}
+			if answer == 2 || (answer == 1 && cf.ed != nil) {
+				refusals[typeNames[k.typ]+":ssh"] = append(refusals[typeNames[k.typ]+":ssh"], refusal{"ca-" + name(signing), verifHit{Key: fmt.Sprintf("C19:offered-refused:%s:ca-%s", typeNames[k.typ], name(signing)), Oracle: "a key of a type the client offers is certified by the server, whatever format its CA key files are in", Kind: "input",
+					What: fmt.Sprintf("%s key sent as the client serialises it to certgen type=ssh of a daemon with %s: %d %s", typeNames[k.typ], desc, rr.Code, strings.TrimSpace(rr.Body.String())), Case: kcs, Observed: rr.Code}})
+			}
+			// type=x509 (the client asks X.509 certificates for its main key only)
+			reqX := verifCertgenRequest("POST", "alice", "x509", pemKey, nil, nil)
+			reqX.AddCookie(cookie)
+			rrX, _ := env.serve(reqX)
+			x509ok := rrX.Code == 200 && verifParseCertBody(rrX.Body.Bytes()) != nil
+			if k.typ != 3 {
+				asked[typeNames[k.typ]+":x509"]++
+			}
+			if k.typ != 3 && !x509ok {
+				kcs = map[string]interface{}{"main_ca": name(cf.main), "ed25519_ca": edName, "sealed": cf.sealed, "client_key_type": typeNames[k.typ], "key": strings.TrimSpace(pemKey), "status": rrX.Code}
+				refusals[typeNames[k.typ]+":x509"] = append(refusals[typeNames[k.typ]+":x509"], refusal{"x509-ca-" + name(cf.main), verifHit{Key: fmt.Sprintf("C19:offered-refused:%s:x509-ca-%s", typeNames[k.typ], name(cf.main)), Oracle: "a key of a type the client offers is certified by the server, whatever format its CA key files are in", Kind: "input",
+					What: fmt.Sprintf("%s key sent as the client serialises it to certgen type=x509 of a daemon with %s: %d %s", typeNames[k.typ], desc, rrX.Code, strings.TrimSpace(rrX.Body.String())), Case: kcs, Observed: rrX.Code}})
+			}
+			verdicts = append(verdicts, fmt.Sprintf("(%d%%N, %d%%N, %s)", k.typ, answer, coqBool(x509ok)))
+			vdesc = append(vdesc, fmt.Sprintf("%s:ssh=%d/x509=%d", typeNames[k.typ], rr.Code, rrX.Code))
+			res.bump(fmt.Sprintf("ca-sweep:%s:ssh=%d", typeNames[k.typ], rr.Code))
+			res.eval(fmt.Sprintf("ca-sweep|%s|%s|%d|%d", desc, typeNames[k.typ], rr.Code, rrX.Code), true)
+		}
+		cases = append(cases, fmt.Sprintf(" (%d%%N, %d%%N, %s, true, [%s])", cf.main.alg, cf.main.format, edCoq, strings.Join(verdicts, "; ")))
+		idx = append(idx, fmt.Sprintf("%d\t%s -> %s", len(idx), desc, strings.Join(vdesc, " ")))
+	}
+	// a key file the daemon does not take: named by the file when every configuration with that file fails
+	perMain, perEd := map[string]int{}, map[string]int{}
+	for _, f := range notLoaded {
+		perMain[f.main]++
+		perEd[f.ed]++
+	}
+	reported := map[string]bool{}
+	for _, f := range notLoaded {
+		key := "C19:offered-refused:all:ca-" + f.main + "+" + f.ed
+		switch {
+		case perMain[f.main] == 3:
+			key = "C19:offered-refused:all:ca-" + f.main
+		case perEd[f.ed] == 12:
+			key = "C19:offered-refused:all:ca-" + f.ed
+		}
+		if !reported[key] {
+			reported[key] = true
+			f.hit.Key = key
+			res.hit(f.hit)
+		}
+	}
+	for _, tp := range []string{"rsa:ssh", "rsa:x509", "p256:ssh", "p256:x509", "p384:ssh", "p384:x509", "ed25519:ssh"} {
+		rs := refusals[tp]
+		if len(rs) == 0 {
+			continue
+		}
+		if len(rs) == asked[tp] {
+			// refused whatever the CA key material is: one hit, the first configuration as the input
+			h := rs[0].hit
+			h.Key = "C19:offered-refused:" + strings.Replace(tp, ":", ":ca-any-", 1)
+			h.What += fmt.Sprintf(" (and with every other of the %d CA key configurations)", asked[tp])
+			res.hit(h)
+			continue
+		}
+		seen := map[string]bool{}
+		for _, r := range rs {
+			if !seen[r.ca] {
+				seen[r.ca] = true
+				res.hit(r.hit)
+			}
+		}
+	}
+	return cases, idx
 }
